@@ -34,6 +34,7 @@ import (
 
 func init() {
 	stages["c17sym"] = stageC17Sym
+	stages["c17symbatch"] = stageC17SymBatch
 	stages["c17render"] = stageC17Render
 	stages["c17compile"] = stageC17Compile
 	stages["c17run"] = stageC17Run
@@ -945,8 +946,9 @@ func stageC17Render(raw json.RawMessage) Result {
 	// symbol just defined), Resolve(n) -> "n = n" (the compiler resolves n
 	// twice: OpGet*, OpSet*). A Define of a name the scope already has and a
 	// Resolve of an unknown name change nothing in the specification and have
-	// no Evy counterpart: they are skipped. An empty block gets "print 0"
-	// (no variable access).
+	// no Evy counterpart: they are skipped. An empty block gets
+	// "while true / break / end" (no variable access; its own empty scope
+	// is pushed and popped by the compiler, which can only raise LocalCount).
 	var sb strings.Builder
 	depth := 0
 	type exp struct {
@@ -971,7 +973,7 @@ func stageC17Render(raw json.RawMessage) Result {
 				return Result{OK: true, Obs: map[string]any{"status": "not-renderable"}}
 			}
 			if stmts[depth] == 0 {
-				sb.WriteString(ind + "print 0\n")
+				sb.WriteString(ind + "while true\n" + ind + "    break\n" + ind + "end\n")
 			}
 			depth--
 			defined = defined[:depth+1]
@@ -996,7 +998,8 @@ func stageC17Render(raw json.RawMessage) Result {
 	}
 	for depth > 0 {
 		if stmts[depth] == 0 {
-			sb.WriteString(strings.Repeat("    ", depth) + "print 0\n")
+			ind := strings.Repeat("    ", depth)
+			sb.WriteString(ind + "while true\n" + ind + "    break\n" + ind + "end\n")
 		}
 		depth--
 		sb.WriteString(strings.Repeat("    ", depth) + "end\n")
@@ -1073,4 +1076,26 @@ func stageC17Decode(raw json.RawMessage) Result {
 		ins = []c17instr{}
 	}
 	return Result{OK: true, Obs: map[string]any{"instrs": ins, "ipx": ipx, "decode_err": derr, "bytes": c.Bytes}}
+}
+
+// ---------------------------------------------------------------------------
+// c17symbatch: many Symtab behaviours in one case (API replay + rendering);
+// the per-item results are returned in obs.results. A panic fails the whole
+// batch; the caller then replays its items one by one.
+
+func stageC17SymBatch(raw json.RawMessage) Result {
+	var c struct {
+		Items []json.RawMessage `json:"items"`
+	}
+	if err := json.Unmarshal(raw, &c); err != nil {
+		return Result{OK: false, Diff: "harness: " + err.Error()}
+	}
+	out := make([]map[string]any, 0, len(c.Items))
+	for _, it := range c.Items {
+		a := stageC17Sym(it)
+		b := stageC17Render(it)
+		st, _ := b.Obs["status"].(string)
+		out = append(out, map[string]any{"sym_ok": a.OK, "sym_diff": a.Diff, "ren_ok": b.OK, "ren_diff": b.Diff, "ren_status": st})
+	}
+	return Result{OK: true, Obs: map[string]any{"results": out}}
 }
